@@ -53,6 +53,25 @@ func c16BigValue(emu *kit.Emu, e C16Edge) {
 	admin.Do("SET", "bigs", strings.Repeat("\x00", n))
 	admin.Do("HSET", "bigh", "f", strings.Repeat("h", n))
 	admin.Do("RPUSH", "bigl", strings.Repeat("l", n), "tail")
+	// two sets with 300 members each, half of them shared; a hash and a list with many small elements
+	for _, k := range []string{"sa", "sb"} {
+		a := []string{"SADD", k}
+		for i := 0; i < 300; i++ {
+			if i < 150 {
+				a = append(a, "common-"+strconv.Itoa(i))
+			} else {
+				a = append(a, k+"-"+strconv.Itoa(i))
+			}
+		}
+		admin.Do(a...)
+	}
+	hs, ls := []string{"HSET", "manyh"}, []string{"RPUSH", "manyl"}
+	for i := 0; i < 300; i++ {
+		hs = append(hs, "f"+strconv.Itoa(i), "v")
+		ls = append(ls, "e"+strconv.Itoa(i%17))
+	}
+	admin.Do(hs...)
+	admin.Do(ls...)
 	admin.Close()
 	chunk := strings.Repeat("\xff", n/2)
 	var wg sync.WaitGroup
@@ -81,6 +100,17 @@ func c16BigValue(emu *kit.Emu, e C16Edge) {
 	for r := 0; r < 2+e.Waiters/3; r++ {
 		run(reads[r:], e.Rounds*2)
 	}
+	// commands that derive a result from whole collections, several at once over the same operands, and writers to those operands
+	algebra := [][]string{{"SUNION", "sa", "sb"}, {"SINTER", "sa", "sb"}, {"SDIFF", "sa", "sb"}, {"SUNIONSTORE", "sd", "sa", "sb"}, {"SINTERSTORE", "sd2", "sa", "sb"}, {"SDIFFSTORE", "sd3", "sa", "sb"},
+		{"SINTERCARD", "2", "sa", "sb"}, {"SMEMBERS", "sa"}, {"SRANDMEMBER", "sa", "50"}, {"SSCAN", "sa", "0", "COUNT", "100"}, {"SUNION", "sa", "sb", "sa"}, {"SMISMEMBER", "sa", "common-1", "nope"},
+		{"HGETALL", "manyh"}, {"HKEYS", "manyh"}, {"HRANDFIELD", "manyh", "40", "WITHVALUES"}, {"HSCAN", "manyh", "0", "COUNT", "100"}, {"LRANGE", "manyl", "0", "-1"}, {"SORT", "manyl", "ALPHA"},
+		{"LPOS", "manyl", "e3", "COUNT", "0"}, {"COPY", "sa", "sacopy", "REPLACE"}, {"COPY", "manyh", "hcopy", "REPLACE"}, {"SORT", "sa", "ALPHA", "LIMIT", "0", "10"}}
+	mutate := [][]string{{"SADD", "sa", "extra"}, {"SREM", "sa", "extra"}, {"SMOVE", "sa", "sb", "sa-200"}, {"SMOVE", "sb", "sa", "sa-200"}, {"HSET", "manyh", "f7", "w"}, {"HDEL", "manyh", "f299"}, {"HSET", "manyh", "f299", "v"},
+		{"LSET", "manyl", "5", "e3"}, {"LPUSH", "manyl", "head"}, {"LPOP", "manyl"}, {"LINSERT", "manyl", "BEFORE", "e5", "ins"}, {"LREM", "manyl", "1", "ins"}}
+	for r := 0; r < 3+e.Waiters/3; r++ {
+		run(algebra[r*3%len(algebra):], e.Rounds*2)
+	}
+	run(mutate, e.Rounds*2)
 	wg.Wait()
 }
 
